@@ -110,7 +110,11 @@ def canon_case(lines):
         k = m.group(0)
         if k not in tbl: tbl[k] = "#%04d" % len(tbl)
         return tbl[k]
-    return [OPID.sub(r, l) for l in lines]
+    out = []
+    for l in lines:
+        if l.startswith("> RESET"): tbl.clear()
+        out.append(OPID.sub(r, l))
+    return out
 
 def split_cases(text):
     """output → list of per-case line lists (cases start at '#case' lines)"""
